@@ -2,6 +2,7 @@ package props
 
 import (
 	"go/token"
+	"strings"
 
 	"golang.org/x/tools/go/ssa"
 
@@ -256,6 +257,46 @@ func c05() []*Ob {
 					} else {
 						c.Violation("prov:paginateIDs", fn.Pos(), "paginateIDs no longer slices [offset:] and [:size]")
 					}
+				}
+			}},
+		{Prop: "C05", ID: "C05.6", Engine: "PAIR(key)", Floor: 1,
+			Desc: "a repetition is the same document id, wherever it came from: removeRepetitionsAdvanced (the merge of per-fraction and per-shard results) compares IDSource.ID and never reads IDSource.Source or Hint, directly or through a helper (the same document answered by two shards differs only in Source)",
+			Check: func(c *Ctx) {
+				fn := c.Fn("seq.removeRepetitionsAdvanced")
+				if fn == nil {
+					return
+				}
+				bad := false
+				for _, f := range []string{"Source", "Hint"} {
+					for _, l := range c.P.FindLifted(fn, FieldLoad("seq.IDSource", f)) {
+						// reads that only feed the kept element (copying the struct) are not comparisons
+						usedInCompare := false
+						if v, ok := l.In.(ssa.Value); ok {
+							for _, r := range *v.Referrers() {
+								if bo, isBo := r.(*ssa.BinOp); isBo && (bo.Op == token.EQL || bo.Op == token.NEQ) {
+									usedInCompare = true
+								}
+							}
+						}
+						if usedInCompare {
+							bad = true
+							c.Violation("pair:removeRepetitions:key:"+f, l.In.Pos(), "the repetition test of the result merge compares IDSource.%s: the same document returned by two shards (or fractions) is kept twice, the total is not reduced and pages repeat documents", f)
+						}
+					}
+				}
+				for _, l := range c.P.FindLifted(fn, func(in ssa.Instruction) bool {
+					bo, ok := in.(*ssa.BinOp)
+					return ok && (bo.Op == token.EQL || bo.Op == token.NEQ) && strings.HasSuffix(bo.X.Type().String(), "seq.IDSource")
+				}) {
+					bad = true
+					c.Violation("pair:removeRepetitions:key:struct", l.In.Pos(), "the repetition test of the result merge compares whole IDSource values (id, source and hint): the same document returned by two shards is kept twice")
+				}
+				if !c.P.Has(fn, FieldLoad("seq.IDSource", "ID")) {
+					c.Violation("pair:removeRepetitions:no-id", fn.Pos(), "removeRepetitionsAdvanced no longer compares the document ids")
+					bad = true
+				}
+				if !bad {
+					c.Site(fn.Pos(), "repetitions are decided by IDSource.ID alone")
 				}
 			}},
 		{Prop: "C05", ID: "C05.5", Engine: "ERRFLOW", Floor: 3,
